@@ -98,6 +98,10 @@ func failingStatements(w *world, maxM int) []failStmt {
 			failStmt{SQL: fmt.Sprintf("DELETE FROM t1 WHERE a > %d", half), Class: "valid/delete-upper-half", K: 0, M: len(t.Rows)},
 			failStmt{SQL: fmt.Sprintf("DELETE FROM t1 WHERE a <= %d", half), Class: "valid/delete-lower-half", K: 0, M: len(t.Rows)},
 			failStmt{SQL: "UPDATE t1 SET c = 'v'", Class: "valid/update-all", K: 0, M: len(t.Rows)},
+			// (sets the value that one row in the middle / the last row / the first row already holds)
+			failStmt{SQL: fmt.Sprintf("UPDATE t1 SET c = '%v'", t.Rows[len(t.Rows)/2].Vals[1]), Class: "valid/update-all-to-a-held-value", K: 0, M: len(t.Rows)},
+			failStmt{SQL: fmt.Sprintf("UPDATE t1 SET c = '%v'", t.Rows[len(t.Rows)-1].Vals[1]), Class: "valid/update-all-to-a-held-value", K: 0, M: len(t.Rows)},
+			failStmt{SQL: fmt.Sprintf("UPDATE t1 SET c = '%v', a = %v WHERE a > 0", t.Rows[0].Vals[1], t.Rows[0].Vals[0]), Class: "valid/update-all-to-a-held-value", K: 0, M: len(t.Rows)},
 			failStmt{SQL: fmt.Sprintf("INSERT INTO t1 VALUES (%d, 'v')", next), Class: "valid/insert", K: 0, M: 1})
 		out = append(out,
 			failStmt{SQL: "UPDATE t1 SET a = 'x'", Class: "update/type-mismatch", K: 1, M: len(t.Rows)},
